@@ -75,12 +75,16 @@ def index_origins(ctx, fid):
     for body, cid in bodies:
         item = closure_item_origins(ctx, parent, cid) if cid else None
 
-        def lift(tr):
+        def lift(tr, body=body, cid=cid, item=item):
             out = set()
             for (r, p) in tr:
                 if cid and r == ("arg", 2) and item:
                     for (r2, p2) in item:
                         out.add((r2, tuple(p2) + tuple(p)))
+                elif r[0] == "call" and not cid and ctx.has_fn(str(r[2])) and ctx.fns[str(r[2])]["kind"] != "closure" and body.term(r[1])["args"] and \
+                        any(r2 == SELF1 and not p2 for (r2, p2) in body.trace_operand(body.term(r[1])["args"][0])) and len(body.term(r[1])["args"]) == 1:
+                    # a number the circuit computes about itself (`self.total_inputs()`): a derived field of the circuit
+                    out.add((SELF1, (mir.last_seg(str(r[2])) + "()",) + tuple(p)))
                 else:
                     out.add((r, tuple(p)))
             return out
@@ -89,7 +93,16 @@ def index_origins(ctx, fid):
                 continue
             t = blk["term"]
             if t and t["k"] == "call" and t["func"].get("declared") in INDEX_CALLS:
-                res.append((lift(body.trace_operand(t["args"][1])), t["sp"], "index operand of %s" % mir.last_seg(mir.callee(t) or "")))
+                tr = set(body.trace_operand(t["args"][1]))
+                # a slice `xs[a..]` / `xs[a..b]`: the bounds of the range are the index positions
+                for (r, p) in list(tr):
+                    if r[0] == "agg" and not p:
+                        rv = body.blocks[r[1]]["stmts"][r[2]]["rv"]
+                        if "Range" in (rv.get("adt") or ""):
+                            tr.discard((r, p))
+                            for o in rv["ops"]:
+                                tr |= set(body.trace_operand(o))
+                res.append((lift(tr), t["sp"], "index operand of %s" % mir.last_seg(mir.callee(t) or "")))
             for st in blk["stmts"]:
                 if st["k"] != "assign":
                     continue
